@@ -120,9 +120,6 @@ func illFormed(op Op) bool {
 	return false
 }
 
-func reservedMutation(op Op) bool {
-	return op.Kind.Mutating() && len(op.Name) >= len(refmodel.ReservedPrefix) && op.Name[:len(refmodel.ReservedPrefix)] == refmodel.ReservedPrefix
-}
 
 // ApplyModel runs op on the model for a caller holding rules (nil rules =
 // superuser with every permission).
@@ -135,7 +132,7 @@ func ApplyModel(m *refmodel.Model, rules []refmodel.Rule, super bool, op Op) Res
 	}
 	if !allowed(op.Name) {
 		r := res(refmodel.Denied)
-		if illFormed(op) || reservedMutation(op) {
+		if illFormed(op) {
 			r.Alt = refmodel.Other // refused either way; the property fixes the class only for well-formed requests
 		}
 		return r
